@@ -56,6 +56,8 @@ def _work(idx):
             os.close(fd)
             try:
                 with B.silence():
+                    if opts.get("smt2_after_solve"):
+                        s.solve()   # the export must denote the PROBLEM, whatever was solved before on this solver
                     s.export_to_smt2(path)
                 smt_assertions = z3.parse_smt2_string(open(path).read())
             finally:
